@@ -157,3 +157,35 @@ func VH_match(a []string) {
 	vAssert(vIff(got, rev), "match-symmetric")
 	vAssert(vImplies(vStrEq(x.text, y.text), got), "match-reflexive")
 }
+
+// texts "id[+]" and "id[+] WITH e" for every exception e (index len(exceptions) = no exception)
+func vTableExcTexts(id string, plus string) []string {
+	exc := spdxlicenses.GetExceptions()
+	base := id
+	if plus == "1" {
+		base += "+"
+	}
+	out := make([]string, len(exc)+1)
+	for k, e := range exc {
+		out[k] = base + " WITH " + e
+	}
+	out[len(exc)] = base
+	return out
+}
+
+// VH_matchExc [idA plusA idB plusB]: two concrete ids, the exception on each side a choice
+// variable over ALL exception ids (or none): exception status and text must agree for a match,
+// and the license part must match as it does without exceptions.
+func VH_matchExc(a []string) {
+	ta := vTableExcTexts(a[0], a[1])
+	tb := vTableExcTexts(a[2], a[3])
+	i := vPickInt(0, len(ta)-1, "ea")
+	j := vPickInt(0, len(tb)-1, "eb")
+	x, y := ta[i], tb[j]
+	vNote("text", "Satisfies("+vShow(x)+", ["+vShow(y)+"])")
+	got, err := Satisfies(x, []string{y})
+	vAssert(err == nil, "valid-terms-accepted")
+	bare, err2 := Satisfies(ta[len(ta)-1], []string{tb[len(tb)-1]})
+	vAssert(err2 == nil, "valid-terms-accepted")
+	vAssert(vIff(got, vAnd(bare, i == j)), "exception-must-agree")
+}
